@@ -165,14 +165,14 @@ EXTRA = {
     "C05": "; memory layouts of the inputs; overlapping calls under a harness-owned thread schedule; child interpreters under python -O / -OO",
     "C06": "; libFuzzer + AddressSanitizer + UBSan target for the C++ step function with an in-target long-double oracle; long-lived kernel objects (more distinct events than any cache size in the source, then revisits); out-of-domain events before the batch",
     "C07": "; block-edge and source-harvested batch sizes; memory layouts and float32 inputs; overlapping calls under a harness-owned thread schedule",
-    "C08": "; live configuration edits at every level; cloud decks and low detectors in every run; stage objects of other instruments constructed and used between construction and call; whole-number altitudes as integer-typed arrays; overlapping stage calls under a harness-owned thread schedule",
+    "C08": "; live configuration edits at every level; cloud decks and low detectors in every run; stage objects of other instruments constructed and used between construction and call; whole-number altitudes as integer-typed arrays; pickled / deep / shallow copies of the stage object; overlapping stage calls under a harness-owned thread schedule",
     "C09": "; an earlier event on the same kernel object; EAS batches with the package's own cloud model object mixing out-of-range events with sites of different cloud tops; pickled copies after configuration edits; 26 model objects alive at once; compact event regions",
     "C10": "; harness-owned two-worker scheduler with generated and exhaustively enumerated pre-emption points; double-precision (hook) kernels; pickled-copy state; dask.distributed client (in-process cluster) as scheduler; two batches submitted at the same time by two user threads",
     "C11": "; history ops: refused calls, memory layouts, float32 inputs, object churn, overlapping calls (generated and exhaustively enumerated pre-emption points)",
     "C12": "; block-edge and source-harvested sample counts; live configuration edits at every level; child interpreters under python -O / -OO",
     "C13": "; explicit fractions after a whole-grid throw; sub-millisecond start times; other time scales; source-harvested block lengths; child interpreters in other time zones; dark-sky condition inside the target-mode integral (single-event probes against the ephemeris oracle, after an earlier batch on the same object)",
     "C14": "; earlier run differing in exactly one configuration field (or a band of the same width elsewhere), both sides in fresh interpreters, also with ONE configuration object edited in place between the runs; exceptions raised by the package in a child sequence are violations",
-    "C15": "; model-based file history (reads after caller-side edits and equal-length rewrites); units differing from a compatible one only by angle / scale factors (oracle: astropy's default conversion); atheris / libFuzzer target for the TOML reader; child interpreters without a UTF-8 locale and under python -O",
+    "C15": "; rejections demanded in memory also demanded of a TOML file carrying the entry; model-based file history (reads after caller-side edits and equal-length rewrites); units differing from a compatible one only by angle / scale factors (oracle: astropy's default conversion); atheris / libFuzzer target for the TOML reader; child interpreters without a UTF-8 locale and under python -O",
     "C16": "; same output path overwritten; one configuration object edited in place between writes; second generation of a results file with a harness-owned clock; run command and show-plot loader paths",
     "C17": "; an earlier staged run of the process to the same output path; BaseException stage faults; interrupted runs with staging disabled; directory-tree listings",
     "C18": "; model-based history on one HDF5 file with nested paths and overwrites (incl. same shape with other values / dtypes, and the file removed and re-created under the same name); axes stored descending / rotated; slices written to files",
